@@ -112,9 +112,12 @@ def c12():
 _KEEP = {}
 
 
-def _page():
+def _page(grown=0):
     d = deps3()
-    return tags.html(tags.head(), tags.body(tags.h1("t"), d[0], d[1], H.head_content(tags.title("T"))))
+    page = tags.html(tags.head(), tags.body(tags.h1("t"), d[0], d[1], H.head_content(tags.title("T"))))
+    for i in range(grown):
+        page.children[1].append(tags.p("grown %d" % i), H.HTMLDependency("grown%d" % i, "1.0", source={"href": "h://g"}, script={"src": "g.js"}))
+    return page
 
 
 def _text():
@@ -146,12 +149,20 @@ def c13():
     if "last13" in _KEEP:
         _KEEP["last13"]["dependencies"].reverse()
         _KEEP["last13"]["dependencies"].append(H.HTMLDependency("appended-by-caller", "1.0"))
+    g = _KEEP.get("g13", 0)
     kept = _KEEP["doc"].render(lib_prefix=prefix, include_version=iv)
     _KEEP["last13"] = kept
     kept2 = H.HTMLDocument(_KEEP["page"], lang="en").render(lib_prefix=prefix, include_version=iv)
-    fresh = H.HTMLDocument(_page(), lang="en").render(lib_prefix=prefix, include_version=iv)
-    ok = (_same(kept, fresh), _same(kept2, fresh), str(_KEEP["page"]) == str(_page()))
-    return dg("kept objects render like fresh ones") if ok == ((True, True), (True, True), True) else "KEPT-DIFFERS-FROM-FRESH"
+    fresh = H.HTMLDocument(_page(g), lang="en").render(lib_prefix=prefix, include_version=iv)
+    ok = (_same(kept, fresh), _same(kept2, fresh), str(_KEEP["page"]) == str(_page(g)))
+    # the kept page GROWS through its own body tag after the kept document has rendered it with these very settings;
+    # the same document object rendered again shows the page as it is now
+    _KEEP["page"].children[1].append(tags.p("grown %d" % g), H.HTMLDependency("grown%d" % g, "1.0", source={"href": "h://g"}, script={"src": "g.js"}))
+    _KEEP["g13"] = g + 1
+    kept3 = _KEEP["doc"].render(lib_prefix=prefix, include_version=iv)
+    fresh3 = H.HTMLDocument(_page(g + 1), lang="en").render(lib_prefix=prefix, include_version=iv)
+    ok = ok + (_same(kept3, fresh3),)
+    return dg("kept objects render like fresh ones") if ok == ((True, True), (True, True), True, (True, True)) else "KEPT-DIFFERS-FROM-FRESH"
 
 
 def c14():
